@@ -94,9 +94,12 @@ Definition equiv_dec (d1 d2 : dfa) : eq_result :=
   explore (equiv_fuel d1 d2 sigma) d1 d2 sigma [] [([], (Some (d_start d1), Some (d_start d2)))].
 
 (** *** trim *)
+(** the [step]-successors of [s]: an entry of the row that is shadowed by an earlier entry for the
+    same input is not a transition of the automaton ([step] takes the first one) *)
 Definition succs (d : dfa) (s : N) : list N :=
   match assocN s (d_trans d) with
-  | Some row => map snd row
+  | Some row =>
+      flat_map (fun it => match assocN (fst it) row with Some t => [t] | None => [] end) row
   | None => []
   end.
 
